@@ -35,9 +35,10 @@ impl ParseTree
 	) -> Self
 	{
 		// For nodes, we want to avoid the realloc at all costs.
-		// TODO so 1 is too small, 2 is very likely true but a bit of a magic number
+		// A token pays for at most four nodes (`a + a + a ...` reaches that),
+		// the padding and one private zone marker come on top.
 		let num_tokens =
-			MAX_PARSE_NODE_CONTEXT + 2 * tokens.base_tokens().len();
+			MAX_PARSE_NODE_CONTEXT + 1 + 4 * tokens.base_tokens().len();
 		let nodes = Vec::with_capacity(num_tokens);
 
 		// The caller knows how many declarations there can be.
